@@ -6,7 +6,7 @@ import drvlib as D
 
 OBLIGATIONS = ['Cvise.C09.accept_requires_ok0', 'Cvise.C09.accept_pure', 'Cvise.C09.loop_sound', 'Cvise.C09.bug_dirs_step',
                'Cvise.C09.extra_dirs_step', 'Cvise.D.roundLoop_sound', 'Cvise.D.wfs_sound', 'Cvise.C09.timeouts_end_the_round',
-               'Cvise.C09.shipped_max_timeouts', 'Cvise.C09.report_dirs_within_limits']
+               'Cvise.C09.shipped_max_timeouts', 'Cvise.C09.report_dirs_within_limits', 'Cvise.C09.pass_run_completes_under_faults']
 
 
 def oracle(scen, obs):
